@@ -12,6 +12,10 @@ def chars(s): return [ord(ch) for ch in s]
 def fxp_str(s, n, nf, cx): return 'fxp-%s%d/%d%s' % ('s' if s else 'u', n, nf, '-complex' if cx else '')
 def q_str(s, n, nf): return '%s%d.%d' % ('Q' if s else 'UQ', n - nf, nf)
 
+def np_iscomplex(x):
+    import numpy as np
+    return np.iscomplexobj(x.val)
+
 def run_cases(cases, res, stratum):
     fx = lib.impl()
     pend = []; reqs = []
@@ -25,6 +29,12 @@ def run_cases(cases, res, stratum):
             obs['fxp_default_get_none'] = fx.Fxp(None, s, n, nf).get_dtype()
             y = fx.Fxp(None, dtype=fxp_str(s, n, nf, cx)); obs['ctor'] = (bool(y.signed), int(y.n_word), int(y.n_frac), 'complex' in y.dtype)
             z = fx.Fxp(None, True, 8, 2); z.resize(dtype=fxp_str(s, n, nf, cx)); obs['resize'] = (bool(z.signed), int(z.n_word), int(z.n_frac), 'complex' in z.dtype)
+            # receivers holding an integer / a real value: the dtype string and the object (format, complex or not) must agree
+            zi = fx.Fxp(3, True, 8, 0); zi.resize(dtype=fxp_str(s, n, nf, False)); obs['resize_int'] = (bool(zi.signed), int(zi.n_word), int(zi.n_frac), zi.dtype)
+            yr = fx.Fxp(0.5, dtype=fxp_str(s, n, nf, cx)) if n <= 52 else None
+            obs['ctor_real'] = None if yr is None else (yr.dtype, yr.get_dtype('fxp'), bool(np_iscomplex(yr)))
+            if cx:
+                cr = fx.Fxp(1 + 2j, s, n, nf); cr(0.5); obs['complex_then_real'] = (cr.dtype, cr.get_dtype('fxp'), bool(np_iscomplex(cr)))
             obs['parse'] = {}
             spell = [fxp_str(s, n, nf, cx), fxp_str(s, n, nf, cx).upper()]
             if n - nf >= 0 and not cx:
@@ -57,6 +67,14 @@ def run_cases(cases, res, stratum):
             k += len(obs['parse']); continue
         if obs['ctor'] != (s, n, nf, cx) or obs['resize'] != (s, n, nf, cx):
             res.fail(c, 'C12: constructing / resizing with dtype=x.dtype does not reproduce the format', expected=(s, n, nf, cx), got=(obs['ctor'], obs['resize'])); k += len(obs['parse']); continue
+        if obs['resize_int'] != (s, n, nf, fxp_str(s, n, nf, False)):
+            res.fail(c, 'C12: resizing an integer-valued object with dtype= does not give the format / dtype string', expected=(s, n, nf, fxp_str(s, n, nf, False)), got=obs['resize_int']); k += len(obs['parse']); continue
+        for key in ('ctor_real', 'complex_then_real'):
+            ob = obs.get(key)
+            if ob is not None and (ob[0] != ob[1] or ('complex' in ob[0]) != ob[2]):
+                res.fail(c, 'C12: the dtype string and the object disagree after storing a real value (%s): complex suffix vs complex values, dtype vs get_dtype' % key, expected='dtype == get_dtype(), suffix iff complex', got=ob); bad = True; break
+        if bad:
+            k += len(obs['parse']); continue
         if mf != want_f or mq != want_q:
             res.fail(c, 'model Dtype renderer disagrees with the implementation although the property holds', expected=(mf, mq), got=(want_f, want_q)); res.failures[-1]['no_input'] = True
         for sp, got in obs['parse'].items():
